@@ -30,7 +30,7 @@ def plan(tier, seed):
 
 
 def floors(tier):
-    return {"evaluations": 400, "strata": ["recompute", "stale-nodes", "permutation", "option-change", "second-label-set", "subset-of-earlier-set", "edited-in-place", "hash-seed"],
+    return {"evaluations": 400, "strata": ["recompute", "stale-nodes", "permutation", "option-change", "second-label-set", "subset-of-earlier-set", "edited-in-place", "other-engine-alive", "hash-seed"],
             "events": {"Force.compute": 1500}, "distinct_nontrivial": 200}
 
 
@@ -98,7 +98,11 @@ def gen_history(rng):
             # a sub-multiset of A, as the very objects that were laid out as part of A before
             ops.append(["nodes", "A-sub", "same-objects"])
             ops.append(["compute"])
-        elif r < 0.9:
+        elif r < 0.86:
+            # another engine with other options is constructed, configured and used in between (it stays alive)
+            ops.append(["other-engine", rng.choice(OPTION_DELTAS + [{"maxPos": 5000, "density": 0.2}, {"minPos": None, "maxPos": None}]), rng.random() < 0.5])
+            ops.append(["compute"])
+        elif r < 0.93:
             # widths / positions of the laid-out label objects edited in place, same objects handed over again (or not)
             ops.append(["edit-in-place", rng.randrange(10**6), rng.random() < 0.7])
             ops.append(["compute"])
@@ -138,6 +142,7 @@ def run_history(ctx, mon, h):
 
     prng = random.Random(h["perm_seed"])
     sets = {"A": h["labelsA"], "B": h["labelsB"]}
+    others = []  # other engines, kept alive
     objs = {}  # set name -> node objects last used for it (the engine may reorder a list it was given)
     lab_of = {}  # id(node) -> the label values the caller gave that object
 
@@ -198,6 +203,15 @@ def run_history(ctx, mon, h):
                 f.nodes(nodes)
                 objs[cur] = nodes
                 feats.add("permutation")
+            elif op[0] == "other-engine":
+                g2 = Force(dict(op[1]))
+                if op[2]:
+                    g2.set_options({"nodeSpacing": 11, "stubWidth": 2})
+                g2.nodes(WL.make_nodes(h["labelsB"][:20] or h["labelsA"][:20]))
+                g2.compute()
+                others.append(g2)
+                mon.drain()
+                feats.add("other-engine-alive")
             elif op[0] == "edit-in-place":
                 # the caller changes width / position of the label objects the engine already laid out, then hands
                 # the same objects to the same engine again
